@@ -132,6 +132,8 @@ fn noise_run(out: &mut Out, c: &Cfg, ebn0_db: f32, salt: u64, rng: &mut Rng, nll
         "mean_e": e4(eng.sum / eng.n as f64), "uselag": uselag,
         // every transmitted position must carry noise: number of distinct LLR values seen there (capped at 64) over `frames` frames
         "pos_distinct": eng.pos_distinct.iter().map(|s| s.len()).collect::<Vec<_>>(), "frames": eng.frames,
+        // independence between frames and between workers: no LLR vector is ever delivered twice
+        "dup_frames": eng.dup_frames, "workers": eng.decoders.len(),
         "lag_e": e4(eng.sum_lag1 / eng.n_lag1.max(1) as f64), "lag_r": e4(reference.sum_lag1 / reference.n_lag1.max(1) as f64)}));
 }
 
